@@ -10,6 +10,7 @@
 //   mul_by_scalar  coefficient i is p[i] * k
 //   degree_of      the index of the last non-ZERO coefficient, 0 when there is none
 //   fill_power_series   result[i] == start * base^i (left-nested products)
+//   remove_leading_zeros   the coefficients up to and including the last non-ZERO one; empty for the zero polynomial
 //   div            see the comment above `div` (uses five algebraic laws as assumptions; all the other functions use none)
 // Not decided here: that E's operations are those of a field (C07 / C08 decide that for the real types); the
 // functions written with iterator adapters (eval, interpolate, syn_div*, batch inversion): bounded stand-in only.
@@ -319,6 +320,32 @@ pub fn div(a: &[E], b: &[E]) -> (r: Vec<E>)
         exists|da: int, db: int, rem: Seq<E>| #[trigger] div_post(a@, b@, r@, da, db, rem),
 {
     let ghost a0 = a@;
+    /*@@body*/
+}
+
+
+// stands for `values[..n].to_vec()` (range indexing of a slice is outside the installed Verus)
+#[verifier::external_body]
+pub fn prefix_vec(values: &[E], n: usize) -> (r: Vec<E>)
+    requires n <= values.len()
+    ensures r@ == values@.subrange(0, n as int)
+{ values[..n].to_vec() }
+
+//@@ source math/src/polynom/mod.rs
+//@@ extract anchor="pub fn remove_leading_zeros<E>(values: &[E]) -> Vec<E>"
+//@@ rewrite "values[..(i + 1)].to_vec()" => "prefix_vec(values, i + 1)"
+//@@ rewrite "vec![]" => "Vec::new()"
+//@@ itername 1 it
+//@@ loop 1
+//@@|        invariant
+//@@|            forall|t: int| values.len() - it.index@ <= t < values.len() ==> values@[t] == E::ZERO,
+pub fn remove_leading_zeros(values: &[E]) -> (r: Vec<E>)
+    ensures
+        (forall|t: int| 0 <= t < values.len() ==> values@[t] == E::ZERO) ==> r.len() == 0,
+        (exists|t: int| 0 <= t < values.len() && values@[t] != E::ZERO) ==> (1 <= r.len() <= values.len()
+            && r@ == values@.subrange(0, r.len() as int) && r@[r.len() - 1] != E::ZERO
+            && forall|t: int| r.len() <= t < values.len() ==> values@[t] == E::ZERO),
+{
     /*@@body*/
 }
 
